@@ -8,7 +8,7 @@ HERE = os.path.dirname(os.path.abspath(__file__))
 TRUSTED_BASE = [
     "Lean 4.33.0 kernel (lake build; thorough tier re-checks the .olean with leanchecker)",
     "axioms: at most propext, Classical.choice, Quot.sound (audited per theorem with collectAxioms on every run); no native_decide / bv_decide / sorry / user axioms",
-    "tools/extract.py (regex-level translator of table-like code into LMV/Gen); the same tables drive the executable model compared with the implementation",
+    "tools/extract.py (regex-level translator of table-like code into LMV/Gen; Gen.Abc: the finite-domain functions of abc.rs executed on their whole domain by the harness, `abc-dump`); the same tables drive the executable model compared with the implementation",
     "the correspondence check: harness generators, canonicalisation, the Lean driver (compiled from the very definitions the theorems are about)",
     "property oracles in harness/src (slow definition-level re-computation used only to decide whether a concrete case violates the property)",
     "rustc/LLVM, the CPU's execution of the intrinsics, Rust std, generic-array/typenum are outside the model",
